@@ -3,6 +3,7 @@ package main
 // Property registry: which units and programs decide which property.
 
 import (
+	"go/parser"
 	"os"
 	"os/exec"
 	"encoding/json"
@@ -62,6 +63,7 @@ func init() {
 		}
 		r.Units = append(r.Units, u)
 		r.verifyFuncs(u, keys)
+		compileErrorFlow(r)
 		return nil
 	}})
 	// C15: the grammar analyses of package tree (countRules, checkRecursion, warn, list primitives) against tree/contracts_verif.go
@@ -161,6 +163,133 @@ func attributed(ob *Obligation, id string) bool {
 		return id == "C13"
 	}
 	return false
+}
+
+// compileErrorFlow: C18's contract of main assumes that (*tree.Tree).Compile returns nil only after the complete parser was
+// written and returns the error on every failure path. Compile is outside the VC generator's subset (13.10), but this part
+// of it is a handful of straight-line statements of its own body, and the assumption is checked on them as frame-style
+// obligations over the syntax tree of tree/peg.go (nested function literals are not Compile's own control flow):
+//   errflow.branches  every `if err != nil { ... }` of Compile's body ends in `return err` (or a return that wraps err) and
+//                     does not assign err inside the branch (the error that is returned is the one that was tested);
+//   errflow.checked   every statement of Compile's body that assigns err from a call is directly followed by such a branch;
+//   errflow.success   the only `return nil` of Compile is its last statement.
+func compileErrorFlow(r *Run) {
+	fset := token.NewFileSet()
+	file, err := parser.ParseFile(fset, filepath.Join(repoDir, "tree", "peg.go"), nil, 0)
+	add := func(name, detail string, ok bool, why string) {
+		r.Obls = append(r.Obls, frameObligation("tree", "compile.errflow."+name, detail, ok, why))
+	}
+	if err != nil {
+		add("source", "tree/peg.go parses", false, err.Error())
+		return
+	}
+	var compile *ast.FuncDecl
+	for _, d := range file.Decls {
+		if fd, ok := d.(*ast.FuncDecl); ok && fd.Name.Name == "Compile" && fd.Recv != nil {
+			compile = fd
+		}
+	}
+	if compile == nil || compile.Body == nil {
+		add("source", "(*Tree).Compile is found in tree/peg.go", false, "no method Compile")
+		return
+	}
+	pos := func(n ast.Node) string { return fset.Position(n.Pos()).String() }
+	isErrNotNil := func(e ast.Expr) bool {
+		b, ok := e.(*ast.BinaryExpr)
+		if !ok || b.Op != token.NEQ {
+			return false
+		}
+		x, ok1 := b.X.(*ast.Ident)
+		y, ok2 := b.Y.(*ast.Ident)
+		return ok1 && ok2 && x.Name == "err" && y.Name == "nil"
+	}
+	mentionsErr := func(e ast.Expr) bool {
+		found := false
+		ast.Inspect(e, func(n ast.Node) bool {
+			if id, ok := n.(*ast.Ident); ok && id.Name == "err" {
+				found = true
+			}
+			return !found
+		})
+		return found
+	}
+	assignsErr := func(s ast.Stmt) (bool, bool) { // assigns err; from a call
+		as, ok := s.(*ast.AssignStmt)
+		if !ok {
+			return false, false
+		}
+		for _, l := range as.Lhs {
+			if id, ok := l.(*ast.Ident); ok && id.Name == "err" {
+				_, call := as.Rhs[len(as.Rhs)-1].(*ast.CallExpr)
+				return true, call
+			}
+		}
+		return false, false
+	}
+	var badBranch, unchecked, earlyNil []string
+	list := compile.Body.List
+	for i, s := range list {
+		if is, ok := s.(*ast.IfStmt); ok && is.Init == nil && isErrNotNil(is.Cond) {
+			body := is.Body.List
+			okBranch := len(body) > 0
+			if okBranch {
+				ret, isRet := body[len(body)-1].(*ast.ReturnStmt)
+				okBranch = isRet && len(ret.Results) == 1 && mentionsErr(ret.Results[0])
+			}
+			ast.Inspect(is.Body, func(n ast.Node) bool {
+				if _, ok := n.(*ast.FuncLit); ok {
+					return false
+				}
+				if st, ok := n.(ast.Stmt); ok {
+					if a, _ := assignsErr(st); a {
+						okBranch = false
+					}
+				}
+				return true
+			})
+			if !okBranch {
+				badBranch = append(badBranch, pos(is))
+			}
+		}
+		if a, fromCall := assignsErr(s); a && fromCall {
+			next, ok := ast.Stmt(nil), false
+			if i+1 < len(list) {
+				next = list[i+1]
+				if is, isIf := next.(*ast.IfStmt); isIf && is.Init == nil && isErrNotNil(is.Cond) {
+					ok = true
+				}
+			}
+			if !ok {
+				unchecked = append(unchecked, pos(s))
+			}
+		}
+	}
+	// return statements of Compile's own body (not of nested literals) that return nil
+	ast.Inspect(compile.Body, func(n ast.Node) bool {
+		if _, ok := n.(*ast.FuncLit); ok {
+			return false
+		}
+		if ret, ok := n.(*ast.ReturnStmt); ok {
+			isNil := len(ret.Results) == 0
+			if len(ret.Results) == 1 {
+				if id, ok := ret.Results[0].(*ast.Ident); ok && id.Name == "nil" {
+					isNil = true
+				}
+			}
+			if isNil && ast.Stmt(ret) != list[len(list)-1] {
+				earlyNil = append(earlyNil, pos(ret))
+			}
+		}
+		return true
+	})
+	last, lastOK := list[len(list)-1].(*ast.ReturnStmt)
+	if !lastOK || len(last.Results) != 1 {
+		earlyNil = append(earlyNil, "the last statement of Compile is not `return nil`")
+	}
+	add("branches", "every `if err != nil` of Compile's body ends by returning that error and does not assign err in the branch", len(badBranch) == 0, strings.Join(badBranch, "; "))
+	add("checked", "every statement of Compile's body that assigns err from a call is directly followed by `if err != nil`", len(unchecked) == 0, strings.Join(unchecked, "; "))
+	add("success", "the only `return nil` of Compile is its last statement (after the formatted parser was written)", len(earlyNil) == 0, strings.Join(earlyNil, "; "))
+	r.Assume["Compile's error flow is checked syntactically on its own statements (compile.errflow.*), the rest of Compile is assumed by C18 (DESIGN.md 13.10)"] = true
 }
 
 // boundedDiagnostics: Tree.Compile itself (the diagnostics of its rule emission loop - "used but not defined" - and the
@@ -615,6 +744,62 @@ func runC09(r *Run) error {
 					fmt.Sprintf("writes(goroutine %d) is disjoint from reads and writes of goroutine %d", i, j), len(clash) == 0, strings.Join(clash, "; ")))
 			}
 			r.Samples = append(r.Samples, map[string]any{"goroutine": i, "writes": filterShared(keysOf(fxs[i].Writes)), "reads": filterShared(keysOf(fxs[i].Reads))})
+		}
+		// (4) what Compile itself does between starting the analyses and waiting for them must not interfere with them either
+		goIdx, waitIdx := -1, -1
+		isWgCall := func(s ast.Stmt, method string) bool {
+			es, ok := s.(*ast.ExprStmt)
+			if !ok {
+				return false
+			}
+			call, ok := es.X.(*ast.CallExpr)
+			if !ok {
+				return false
+			}
+			sel, ok := call.Fun.(*ast.SelectorExpr)
+			return ok && sel.Sel.Name == method
+		}
+		for i, s := range compile.Body.List {
+			if isWgCall(s, "Go") {
+				goIdx = i
+			}
+			if isWgCall(s, "Wait") && waitIdx < 0 && goIdx >= 0 {
+				waitIdx = i
+			}
+		}
+		if len(bodies) >= 2 {
+			ok, why := goIdx >= 0 && waitIdx > goIdx, "the statements `wg.Go(...)` and `wg.Wait()` were not found as statements of Compile's body in this order"
+			if ok {
+				why = ""
+				between := compile.Body.List[goIdx+1 : waitIdx]
+				if len(between) > 0 {
+					sec := &FuncInfo{Key: "Compile.$between", Name: "Compile", Body: &ast.BlockStmt{Lbrace: between[0].Pos(), List: between, Rbrace: between[len(between)-1].End()}, Outer: compile, Pos: between[0].Pos()}
+					sfx := ea.effectsOf(sec, ea.direct(sec))
+					var clash []string
+					for gi, g := range fxs {
+						for _, l := range keysOf(sfx.Writes) {
+							if !sharedLoc(l) {
+								continue
+							}
+							if p, has := g.Writes[l]; has {
+								clash = append(clash, fmt.Sprintf("%s written by Compile before wg.Wait (%s) and by goroutine %d (%s)", l, posString(u, sfx.Writes[l]), gi, posString(u, p)))
+							} else if p, has := g.Reads[l]; has {
+								clash = append(clash, fmt.Sprintf("%s written by Compile before wg.Wait (%s) and read by goroutine %d (%s)", l, posString(u, sfx.Writes[l]), gi, posString(u, p)))
+							}
+						}
+						for _, l := range keysOf(g.Writes) {
+							if p, has := sfx.Reads[l]; has && sharedLoc(l) {
+								clash = append(clash, fmt.Sprintf("%s written by goroutine %d (%s) and read by Compile before wg.Wait (%s)", l, gi, posString(u, g.Writes[l]), posString(u, p)))
+							}
+						}
+					}
+					if len(clash) > 6 {
+						clash = append(clash[:6], fmt.Sprintf("... %d more", len(clash)-6))
+					}
+					ok, why = len(clash) == 0, strings.Join(clash, "; ")
+				}
+			}
+			r.Obls = append(r.Obls, frameObligation(pk, "compile.parallel.parent", "between starting the analyses (wg.Go) and wg.Wait, Compile writes nothing the analyses read or write and reads nothing they write", ok, why))
 		}
 	}
 	r.Extra["explanation"] = "frame proof of a sufficient condition (DESIGN.md 6.9): field-granular write/read sets of the two analysis goroutines of Compile are disjoint; no function of tree/set assigns a package-level variable or uses a go statement; nothing reachable from Compile ranges over a map or reads clock/randomness/environment. Non-interference then gives the same output and warnings under every interleaving (paper lemma)."
